@@ -352,11 +352,12 @@ class Beam(_Simu):
         elif beamModel.dim == 2:
             unknowns = ["x", "y"]
         elif beamModel.dim == 3:
+            released = list(unknowns)
             unknowns = ["x", "y", "z"]
-            if unknowns != [""]:
+            if released != [""]:
                 # We will block rotation ddls that are not in unknowns.
                 unknowns_rot = ["rx", "ry", "rz"]
-                for dir in unknowns:
+                for dir in released:
                     if dir in unknowns_rot.copy():
                         unknowns_rot.remove(dir)
                 unknowns.extend(unknowns_rot)
